@@ -18,6 +18,8 @@ pushes for that version (C02.2) and the spec; (2) the context accessor used for 
 (MINT <= MIDP <= MAXT: no strict comparison, no half-open range); (5) the request the client builds per version has the tags the server's
 parser requires (NONC; for RfcDraft13 VER with the draft-13 wire value, SRV = calc_srv_value(key) only with a key), is framed for
 RfcDraft13 only, the nonce has the protocol's length, and the response parser mirrors the server's framing.
+(4c) Every aborting branch of the client's response handling is one of the protocol's reasons to refuse a reply (signature, Merkle root, window,
+a missing or malformed field, the reply's framing, dispatch on the version); any other aborting condition refuses replies an honest server can send.
 (6) "Honest server": the replies the project's own server builds are valid for every batch position, i.e. the structure rules of C02 hold.
 """
 NOT_DECIDED = "that the padded request is exactly >= 1024 bytes (arithmetic over message contents); chrono formatting; every batch position (value-level)"
@@ -323,6 +325,50 @@ def run(ctx):
             ctx.check("window-inclusive", "%s@%s" % (name, fp.split("::")[-1]), info != "strict", "the client accepts a midpoint equal to the delegation bound (%s)" % name,
                       "the client demands %s: an honest reply whose midpoint equals the delegation bound is refused" % name.replace("<=", " < "), P.fns[fp].loc(bb))
     ctx.floor("window-inclusive", nwin, 2, "enforced MINT/MAXT comparisons in the client")
+
+    # ------------------------------------------------------------------ (4c) the client refuses a reply only for a reason the protocol gives
+    # Every branch of the response-handling code with one arm that aborts (panic / assert / exit) is a rejection rule.  On the reference tree these
+    # are: the two signature checks, the Merkle root comparison, the two window comparisons, malformed / missing fields (a parse or lookup that
+    # failed), the framing test of the reply, and dispatch on the protocol version.  Anything else refuses replies an honest server can send.
+    recognised = {(fp, bb) for lst in comps.values() for (fp, bb, info) in lst}
+    roots = [f.path for f in P.fns.values() if f.path.startswith(CLIENT) and (f.impl_self == HANDLER or f.path.endswith("::receive_response") or f.path.endswith("::verify_framing"))]
+    reach_c, _, _ = P.reach(roots)
+    PARSE = ("from_bytes", "read_u16", "read_u32", "read_u64", "read_exact", "get", "get_field", "try_into", "try_from", "first_chunk", "split_first_chunk", "split_at_checked",
+             "strip_prefix", "from_slice", "from_le_bytes", "timestamp_opt", "single", "into_hash_map", "contains_key", "is_empty", "len")
+    nrej = 0
+    for fp in sorted(reach_c):
+        f = P.fns[fp]
+        if not fp.startswith(CLIENT):
+            continue
+        e = W.ev(fp)
+        div = f.diverging()
+        for bl in f.blocks:
+            t = bl.term
+            if t["k"] != "switch" or bl.idx not in f.reachable() or bl.idx in div:
+                continue
+            succ = f.succ(bl.idx)
+            if not (any(x in div for x in succ) and not all(x in div for x in succ)):
+                continue
+            nrej += 1
+            cond = W.expand(e.op(t["op"], (bl.idx, "term")))
+            why = None
+            if (fp, bl.idx) in recognised:
+                why = "window / Merkle comparison (rules above and C01)"
+            elif values.contains(cond, lambda x: is_call(x) and (x[1].endswith("validate_sig") or x[1].endswith("MsgVerifier::verify"))):
+                why = "signature check"
+            elif values.contains(cond, lambda x: isinstance(x, tuple) and x and ((x[0] == "field" and x[2] == "version") or (x[0] == "enum" and x[1] == VERSION))) or \
+                    (cond[0] == "discr" and isinstance(cond[1], tuple) and cond[1][0] == "param" and "Version" in f.locals[cond[1][2]]["ty"]):
+                why = "dispatch on the protocol version"
+            elif fp.endswith("::verify_framing"):
+                why = "framing of the reply (mirrors the server's framing, rule 5)"
+            elif cond[0] == "discr" and is_call(values.strip_payload(cond[1])) and callee_name(values.strip_payload(cond[1])[1]) in PARSE:
+                why = "a field of the reply is missing or malformed (%s failed)" % callee_name(values.strip_payload(cond[1])[1])
+            elif is_call(cond) and callee_name(cond[1]) in ("is_some", "is_none", "is_ok", "is_err", "contains_key") and cond[2] and is_call(values.strip_payload(cond[2][0])) and \
+                    callee_name(values.strip_payload(cond[2][0])[1]) in PARSE:
+                why = "a field of the reply is missing or malformed"
+            ctx.check("client-rejections", "%s@%s" % (fp.split("::")[-1], fmt(cond)[:60]), why is not None, "rejection rule: %s" % why,
+                      "the client aborts on a condition that is none of the protocol's reasons to refuse a reply (%s): an honest reply satisfying it is refused" % fmt(cond)[:200], f.loc(bl.idx))
+    ctx.floor("client-rejections", nrej, 5, "aborting branches in the client's response handling (signatures, Merkle root, window)")
 
     # ------------------------------------------------------------------ (5) request shape
     mrq = ctx.fn("roughenough_client::make_request")
